@@ -221,9 +221,45 @@ def tables(cfg, crate, rep):
                         fills_ = [o for o in fv_.ops if o[0] == "call" and o[1] in ("copy_from_slice", "clone_from_slice") and len(o) > 2]
                         if len(fills_) == 1 and len(fv_.ops) == 1:
                             ft_ = core(fills_[0][2]).r()
-                    roles_ = {("head", int(m_)) for m_ in _re.findall(r"RangeTo\{end: (\d+)\}", ft_)} \
-                        | {("tail", int(m_)) for m_ in _re.findall(r"RangeFrom\{start: (\d+)\}", ft_)} \
-                        | {("head" if i_ == "0" else "tail", int(m_)) for m_, i_ in _re.findall(r"split_at\((?:[^()]|\([^()]*\))*?, (\d+)\)\.([01])", ft_)}
+                    # structural walk (constants by value: `split_at(V4_LEN)`, `[..ADDR_LEN]`)
+                    roles_ = set()
+                    src_ = fv_
+                    if isinstance(fv_, MutV):
+                        fl_ = [o for o in fv_.ops if o[0] == "call" and o[1] in ("copy_from_slice", "clone_from_slice") and len(o) > 2]
+                        if len(fl_) == 1 and len(fv_.ops) == 1:
+                            src_ = fl_[0][2]
+
+                    def _roles(v_, depth=0):
+                        from interp import IndexV, Sel, TupleV, ArrayV
+                        if depth > 12 or v_ is None:
+                            return
+                        if isinstance(v_, Via):
+                            _roles(v_.inner, depth + 1)
+                        elif isinstance(v_, IndexV):
+                            ix = core(v_.idx)
+                            if isinstance(ix, StructV) and (ix.adt or "").startswith("std::ops::Range"):
+                                st_, en_ = ix.fields.get("start"), ix.fields.get("end")
+                                cs_ = Ig.concrete(st_) if st_ is not None else None
+                                ce_ = Ig.concrete(en_) if en_ is not None else None
+                                if "RangeTo" in ix.adt and isinstance(ce_, int):
+                                    roles_.add(("head", ce_))
+                                elif "RangeFrom" in ix.adt and isinstance(cs_, int):
+                                    roles_.add(("tail", cs_))
+                            _roles(v_.base, depth + 1)
+                        elif isinstance(v_, Sel):
+                            b_ = core(v_.base)
+                            if isinstance(b_, CallV) and b_.callee.endswith(("::split_at", "::split_at_checked")) and len(b_.args) == 2 and v_.sel in (".0", ".1"):
+                                k_ = Ig.concrete(b_.args[1])
+                                if isinstance(k_, int):
+                                    roles_.add(("head" if v_.sel == ".0" else "tail", k_))
+                            _roles(v_.base, depth + 1)
+                        elif isinstance(v_, CallV):
+                            for a_ in v_.args:
+                                _roles(a_, depth + 1)
+                        elif isinstance(v_, PhiV):
+                            for _, y_ in v_.alts:
+                                _roles(y_, depth + 1)
+                    _roles(src_)
                     splits.append(sorted(roles_))
             got["%s%s" % (gname, "/%d" % ln if ln else "")] = (sorted(common.struct_variants(x, "GeneralSubtree::") | common.struct_variants(x, "CidrSubnet::")), splits, pushed is True)
     want = {"RFC822Name": (["Rfc822Name"], [], True), "DNSName": (["DnsName"], [], True), "DirectoryName": (["DirectoryName"], [], True), "URI": None, "OtherName": None,
